@@ -306,5 +306,592 @@ pub fn record(args: &[String], seed: u64, tr: &mut Tr) -> Value {
         let a = host(&mut r, nt, nc, nb, 0.4, i % 2 == 0);
         saved += record_saved(&a, tr);
     }
-    json!({"step_hosts": nsteps, "step_kinds": counts, "runs": runs, "saved_runs": saved})
+    let extra = record_extra(args, &mut r, tr);
+    json!({"step_hosts": nsteps, "step_kinds": counts, "runs": runs, "saved_runs": saved, "extra": extra})
+}
+
+// ---------------------------------------------------------------------------------------------
+// API-coverage additions (docs/api_audit.md #3, #14 and the C05 table):
+//   two    : decompose_until_depth(k) then a finishing decompose / decompose_parallel (on clones of the partially
+//            decomposed Decomposer: same driver sequentially, same driver in a pool, a different driver), on hosts
+//            that fall into components (juxtaposed diagrams, diagrams that split after one step); k in 0..3
+//   run    : decompose_standard (driver "standard"); Decomposer<hash_graph::Graph> (be "hash"); SherlockDriver.tries
+//            other than [2,2,2]; RE-USE of one Decomposer::empty() through set_target for several targets
+//            (via "reuse", with_full_simp / with_clifford_simp / with_simp)
+//   saved  : with_save(true) combined with decompose_parallel, with_split_graphs_components(true), two-stage runs and
+//            re-use (the terms a target added to `done`)
+//   step   : verif_apply_decomp on the hash backend (be "hash")
+//   info   : never judged: max_terms / terms_for_tcount vs nterms, decompose_until_depth called twice, scalar() of a
+//            partially decomposed state, degenerate Sherlock parameters
+// ---------------------------------------------------------------------------------------------
+
+type HGraph = quizx::hash_graph::Graph;
+
+macro_rules! with_drv {
+    ($name:expr, $tries:expr, $drv:ident => $body:expr) => {
+        match $name {
+            "BssTOnly" => {
+                let $drv = BssTOnlyDriver { random_t: false };
+                $body
+            }
+            "BssTOnly_random" => {
+                let $drv = BssTOnlyDriver { random_t: true };
+                $body
+            }
+            "BssWithCats" => {
+                let $drv = BssWithCatsDriver { random_t: false };
+                $body
+            }
+            "BssWithCats_random" => {
+                let $drv = BssWithCatsDriver { random_t: true };
+                $body
+            }
+            "DynamicT" => {
+                let $drv = DynamicTDriver;
+                $body
+            }
+            "Sherlock" => {
+                let $drv = SherlockDriver { tries: $tries.clone() };
+                $body
+            }
+            "SpiderCutting" => {
+                let $drv = SpiderCuttingDriver;
+                $body
+            }
+            _ => panic!("driver"),
+        }
+    };
+}
+
+fn small_f64(x: f64) -> i64 {
+    if x.is_finite() && x >= 0.0 && x < 1e9 {
+        x.round() as i64
+    } else {
+        -1
+    }
+}
+
+fn simp_of(name: &str) -> SimpFunc {
+    match name {
+        "full" => SimpFunc::FullSimp,
+        "clifford" => SimpFunc::CliffordSimp,
+        _ => SimpFunc::NoSimp,
+    }
+}
+
+fn finish<G: GraphLike>(d: &mut Decomposer<G>, driver: &str, tries: &Vec<usize>, threads: usize) {
+    with_drv!(driver, tries, drv => {
+        if threads == 0 {
+            d.decompose(&drv);
+        } else {
+            let pool = rayon::ThreadPoolBuilder::new().num_threads(threads).build().unwrap();
+            pool.install(|| {
+                d.decompose_parallel(&drv);
+            });
+        }
+    })
+}
+
+fn put_result(e: &mut Value, res: Result<(quizx::scalar::Scalar4, usize), String>) {
+    match res {
+        Err(m) => {
+            e["res"] = json!("panic");
+            e["msg"] = json!(m);
+        }
+        Ok((s, nterms)) => {
+            e["res"] = json!("ok");
+            e["scalar"] = sc_json(&s);
+            e["approx"] = json!(crate::absg::sc_is_approx(&s));
+            e["nterms"] = json!(nterms);
+        }
+    }
+}
+
+/// disjoint union of 2..3 small closed hosts, optionally joined through one T-like spider (so that the diagram
+/// splits only after that spider has been decomposed / cut), with a non-trivial overall scalar
+pub fn host_split(r: &mut StdRng, bridge: bool) -> Value {
+    let nparts = r.random_range(2..=3usize);
+    let mut v: Vec<Value> = vec![];
+    let mut e: Vec<Value> = vec![];
+    let mut firsts = vec![];
+    let mut off = 0usize;
+    for _ in 0..nparts {
+        let nt = r.random_range(1..=2usize);
+        let nc = r.random_range(0..=1usize);
+        let part = host(r, nt, nc, 0, 0.7, false);
+        let mut mx = 0;
+        for x in part["v"].as_array().unwrap() {
+            let mut x = x.clone();
+            let id = x["id"].as_u64().unwrap() as usize + off;
+            x["id"] = json!(id);
+            mx = mx.max(id);
+            v.push(x);
+        }
+        for x in part["e"].as_array().unwrap() {
+            let mut x = x.clone();
+            x["u"] = json!(x["u"].as_u64().unwrap() as usize + off);
+            x["w"] = json!(x["w"].as_u64().unwrap() as usize + off);
+            e.push(x);
+        }
+        firsts.push(off + 1);
+        off = mx;
+    }
+    if bridge {
+        let b = off + 1;
+        v.push(json!({"id": b, "ty": "Z", "ph": crate::gens::ph4([1, 3, 5, 7][r.random_range(0..4)]), "vars": [], "vc": false}));
+        for f in firsts.iter().take(2) {
+            e.push(json!({"u": f, "w": b, "t": "H"}));
+        }
+    }
+    let sc = [[1, 0, 0, 0, 0], [0, 1, 0, 0, 0], [1, 0, 1, 0, -1], [0, 1, 0, -1, 0], [-1, 0, 0, 0, 1]][r.random_range(0..5)];
+    json!({"v": v, "e": e, "ins": [], "outs": [], "sc": sc, "sca": false, "sf": []})
+}
+
+/// all two-stage histories of one (driver, simp, split, depth): stage one once, then three finishers on clones
+fn two_stage<G: GraphLike>(g: &G, be: &str, driver: &str, simp: &str, split: bool, depth: i64, threads: usize, other: &str, save: bool) -> Vec<Value> {
+    let tries = vec![2usize, 2, 2];
+    let mut out = vec![];
+    let base = json!({"k": "two", "be": be, "driver": driver, "simp": simp, "split": split, "depth": depth});
+    let mut d = Decomposer::new(g);
+    d.with_simp(simp_of(simp)).with_split_graphs_components(split).with_save(save);
+    let max0 = small_f64(d.max_terms());
+    let st1 = guarded(|| {
+        with_drv!(driver, &tries, drv => {
+            d.decompose_until_depth(depth, &drv);
+        })
+    });
+    if let Err(m) = st1 {
+        let mut e = base.clone();
+        e["finish"] = json!("none");
+        e["res"] = json!("panic");
+        e["stage"] = json!(1);
+        e["msg"] = json!(m);
+        out.push(e);
+        return out;
+    }
+    let (n1, max1) = (d.nterms, small_f64(d.max_terms()));
+    let ready1 = guarded(|| d.scalar()).is_ok();
+    // never judged: the partial state (private) as far as the public API shows it
+    out.push(json!({"k": "info", "what": "partial", "driver": driver, "depth": depth, "split": split, "max0": max0, "max1": max1, "nterms1": n1,
+                    "done1": d.done.len(), "ready1": ready1}));
+    for (fin, th, drv2) in [("seq", 0usize, driver), ("par", threads, driver), ("other", 0usize, other)] {
+        let mut d2 = d.clone();
+        let mut e = base.clone();
+        e["finish"] = json!(fin);
+        e["threads"] = json!(th);
+        e["par"] = json!(th > 0);
+        e["other"] = json!(drv2);
+        e["stage"] = json!(2);
+        let res = guarded(|| {
+            finish(&mut d2, drv2, &tries, th);
+            (d2.scalar(), d2.nterms)
+        });
+        put_result(&mut e, res);
+        out.push(e);
+        if save && fin == "seq" {
+            // the terms saved over both stages (sequential finishing): they must still sum to the diagram
+            let mut s = json!({"k": "saved", "driver": driver, "simp": simp, "split": split, "par": false, "threads": 0, "via": "two_stage", "depth": depth, "res": "ok"});
+            s["nterms"] = json!(d2.nterms);
+            s["terms"] = json!(d2.done.iter().map(abs).collect::<Vec<_>>());
+            out.push(s);
+        }
+    }
+    // never judged: a second bounded call on the partially decomposed state
+    let mut d3 = d.clone();
+    let again = guarded(|| {
+        with_drv!(driver, &tries, drv => {
+            d3.decompose_until_depth(depth + 1, &drv);
+        })
+    });
+    out.push(json!({"k": "info", "what": "until_depth_twice", "driver": driver, "depth": depth, "res": if again.is_ok() { "ok" } else { "panic" }, "msg": again.err().unwrap_or_default()}));
+    out
+}
+
+pub fn record_two_stage(a: &Value, tr: &mut Tr, r: &mut StdRng, hash_too: bool) -> usize {
+    let g: Graph = build(a);
+    let gh: HGraph = build(a);
+    tr.group();
+    tr.emit(json!({"k": "reset", "pre": a}));
+    let mut n = 0;
+    for drv in DRIVERS {
+        for simp in ["none", "clifford", "full"] {
+            for split in [false, true] {
+                for depth in 0..=3i64 {
+                    let threads = [1usize, 2, 3, 4, 8][r.random_range(0..5)];
+                    let mut other = DRIVERS[r.random_range(0..DRIVERS.len())];
+                    // spider cutting presupposes graph-like terms (H legs to Z spiders); without a simplifier the terms of
+                    // the other drivers are not graph-like (X spiders, plain edges), so it only finishes its own stage one
+                    if simp == "none" && other == "SpiderCutting" && drv != "SpiderCutting" {
+                        other = "BssTOnly";
+                    }
+                    let use_hash = hash_too && r.random_bool(0.15);
+                    let evs = crate::eng_simp::with_watchdog(90, {
+                        let (g, gh, drv) = (g.clone(), gh.clone(), drv.to_string());
+                        move || {
+                            if use_hash {
+                                two_stage(&gh, "hash", &drv, simp, split, depth, threads, other, false)
+                            } else {
+                                two_stage(&g, "vec", &drv, simp, split, depth, threads, other, false)
+                            }
+                        }
+                    });
+                    match evs {
+                        None => tr.emit(json!({"k": "two", "be": "vec", "driver": drv, "simp": simp, "split": split, "depth": depth, "finish": "none", "res": "timeout"})),
+                        Some(evs) => {
+                            for e in evs {
+                                if e["k"] == "two" {
+                                    n += 1;
+                                }
+                                tr.emit(e);
+                            }
+                        }
+                    }
+                }
+            }
+        }
+    }
+    n
+}
+
+/// complete runs through the entry points and parameters the grid of record_runs does not reach
+pub fn record_more_runs(a: &Value, tr: &mut Tr, r: &mut StdRng) -> usize {
+    let g: Graph = build(a);
+    let gh: HGraph = build(a);
+    tr.group();
+    tr.emit(json!({"k": "reset", "pre": a}));
+    let mut n = 0;
+    let emit_run = |tr: &mut Tr, mut e: Value, res: Option<Result<(quizx::scalar::Scalar4, usize, i64), String>>| {
+        match res {
+            None => e["res"] = json!("timeout"),
+            Some(Err(m)) => {
+                e["res"] = json!("panic");
+                e["msg"] = json!(m);
+            }
+            Some(Ok((s, nterms, maxt))) => {
+                e["res"] = json!("ok");
+                e["scalar"] = sc_json(&s);
+                e["approx"] = json!(crate::absg::sc_is_approx(&s));
+                e["nterms"] = json!(nterms);
+                e["max_terms"] = json!(maxt);
+            }
+        }
+        tr.emit(e);
+    };
+    // (1) decompose_standard: the driver-less entry point
+    for simp in ["none", "clifford", "full"] {
+        for split in [false, true] {
+            let res = crate::eng_simp::with_watchdog(60, {
+                let g = g.clone();
+                move || {
+                    guarded(|| {
+                        let mut d = Decomposer::new(&g);
+                        d.with_simp(simp_of(simp)).with_split_graphs_components(split);
+                        let mt = small_f64(d.max_terms());
+                        d.decompose_standard();
+                        (d.scalar(), d.nterms, mt)
+                    })
+                }
+            });
+            emit_run(tr, json!({"k": "run", "be": "vec", "driver": "standard", "simp": simp, "split": split, "par": false, "threads": 0}), res);
+            n += 1;
+        }
+    }
+    // (2) the hash backend: every driver, one random configuration each
+    for drv in DRIVERS {
+        let simp = ["none", "clifford", "full"][r.random_range(0..3)];
+        let split = r.random_bool(0.5);
+        let threads = [0usize, 0, 2, 4][r.random_range(0..4)];
+        let res = crate::eng_simp::with_watchdog(60, {
+            let (gh, drv) = (gh.clone(), drv.to_string());
+            move || {
+                guarded(|| {
+                    let mut d = Decomposer::new(&gh);
+                    d.with_simp(simp_of(simp)).with_split_graphs_components(split);
+                    let mt = small_f64(d.max_terms());
+                    finish(&mut d, &drv, &vec![2, 2, 2], threads);
+                    (d.scalar(), d.nterms, mt)
+                })
+            }
+        });
+        emit_run(tr, json!({"k": "run", "be": "hash", "driver": drv, "simp": simp, "split": split, "par": threads > 0, "threads": threads}), res);
+        n += 1;
+    }
+    // (3) Sherlock with other numbers of tries.  The field is undocumented; the code reads tries[0..3], and with
+    // tries[0] >= 1 there is always a candidate.  Shorter vectors / no candidate at all: recorded, never judged.
+    for tries in [vec![1usize, 0, 0], vec![1, 1, 1], vec![3, 2, 1], vec![6, 0, 2], vec![2, 2, 2, 7], vec![1, 5, 0]] {
+        let simp = ["none", "clifford", "full"][r.random_range(0..3)];
+        let split = r.random_bool(0.5);
+        let res = crate::eng_simp::with_watchdog(60, {
+            let (g, tries) = (g.clone(), tries.clone());
+            move || {
+                guarded(|| {
+                    let mut d = Decomposer::new(&g);
+                    d.with_simp(simp_of(simp)).with_split_graphs_components(split);
+                    let mt = small_f64(d.max_terms());
+                    finish(&mut d, "Sherlock", &tries, 0);
+                    (d.scalar(), d.nterms, mt)
+                })
+            }
+        });
+        emit_run(tr, json!({"k": "run", "be": "vec", "driver": "Sherlock", "tries": tries, "simp": simp, "split": split, "par": false, "threads": 0}), res);
+        n += 1;
+    }
+    for tries in [vec![], vec![2usize], vec![2, 2], vec![0, 0, 0], vec![0, 2, 2]] {
+        let res = crate::eng_simp::with_watchdog(60, {
+            let (g, tries) = (g.clone(), tries.clone());
+            move || {
+                guarded(|| {
+                    let mut d = Decomposer::new(&g);
+                    d.with_simp(SimpFunc::FullSimp);
+                    finish(&mut d, "Sherlock", &tries, 0);
+                    d.scalar()
+                })
+            }
+        });
+        let (res, msg) = match res {
+            None => ("timeout", String::new()),
+            Some(Err(m)) => ("panic", m),
+            Some(Ok(_)) => ("ok", String::new()),
+        };
+        tr.emit(json!({"k": "info", "what": "sherlock_degenerate", "tries": tries, "res": res, "msg": msg}));
+    }
+    n
+}
+
+/// one Decomposer::empty() re-used through set_target for several targets (what the sampler of `quizx sim` does)
+fn reuse_history<G: GraphLike>(targets: &[Value], be: &str, driver: &str, simp: &str, via_with: bool, split: bool, save: bool, threads: usize, standard_at: usize) -> Vec<Value> {
+    let tries = vec![2usize, 2, 2];
+    let mut out = vec![];
+    let mut d: Decomposer<G> = Decomposer::empty();
+    // never judged: an empty decomposer has no scalar (documented panic "Not yet initialised!")
+    let e0 = guarded(|| d.scalar()).is_ok();
+    out.push(json!({"k": "info", "what": "empty_scalar", "res": if e0 { "ok" } else { "panic" }}));
+    if via_with {
+        match simp {
+            "full" => d.with_full_simp(),
+            "clifford" => d.with_clifford_simp(),
+            _ => d.with_simp(SimpFunc::NoSimp),
+        };
+    } else {
+        d.with_simp(simp_of(simp));
+    }
+    d.with_split_graphs_components(split).with_save(save);
+    for (i, a) in targets.iter().enumerate() {
+        let g: G = build(a);
+        let closed = g.inputs().is_empty() && g.outputs().is_empty();
+        out.push(json!({"k": "reset", "pre": a}));
+        let (n0, d0) = (d.nterms, d.done.len());
+        let standard = i == standard_at;
+        let res = guarded(|| {
+            d.set_target(g.clone());
+            if standard {
+                d.decompose_standard();
+            } else {
+                finish(&mut d, driver, &tries, threads);
+            }
+            d.scalar()
+        });
+        let drvname = if standard { "standard" } else { driver };
+        // a target with open wires has no scalar to judge: only its saved terms are (a panic there is reported by
+        // the `saved` event, which Trace_Decomp judges for the sequential, unsplit decomposer only)
+        if closed {
+            let mut e = json!({"k": "run", "be": be, "driver": drvname, "simp": simp, "split": split, "par": threads > 0 && !standard, "threads": if standard { 0 } else { threads },
+                               "via": "reuse", "nth": i, "nterms_total": d.nterms});
+            put_result(&mut e, res.clone().map(|s| (s, d.nterms - n0)));
+            out.push(e);
+        }
+        if save {
+            let mut s = json!({"k": "saved", "be": be, "driver": drvname, "simp": simp, "split": split, "par": threads > 0 && !standard, "threads": if standard { 0 } else { threads },
+                               "via": "reuse", "nth": i, "res": if res.is_ok() { "ok" } else { "panic" }});
+            s["nterms"] = json!(d.nterms - n0);
+            s["done_before"] = json!(d0);
+            s["terms"] = json!(d.done[d0.min(d.done.len())..].iter().map(abs).collect::<Vec<_>>());
+            out.push(s);
+        }
+        if res.is_err() && !closed {
+            // the panic may have left the decomposer in the middle of a target: start the next one from a clean state
+            d.set_target(g.clone());
+        }
+    }
+    out
+}
+
+pub fn record_reuse(r: &mut StdRng, tr: &mut Tr, maxt: usize) -> usize {
+    let ntargets = r.random_range(2..=4usize);
+    let save = r.random_bool(0.5);
+    // open targets only together with saving and a BSS-type driver (the saved-terms clause); closed ones always
+    let bss = ["BssTOnly", "BssTOnly_random", "BssWithCats", "BssWithCats_random"];
+    let driver = if save { bss[r.random_range(0..4)] } else { DRIVERS[r.random_range(0..DRIVERS.len())] };
+    let mut targets = vec![];
+    for i in 0..ntargets {
+        let nt = r.random_range(if i == 1 { 0 } else { 1 }..=maxt.min(5));
+        let nc = r.random_range(0..=2);
+        let nb = if save && r.random_bool(0.5) { r.random_range(1..=2) } else { 0 };
+        let (c1, c2) = (r.random_bool(0.3), r.random_bool(0.5));
+        targets.push(if nb == 0 && c1 { host_split(r, c2) } else { host(r, nt, nc, nb, 0.45, c2) });
+    }
+    let simp = ["none", "clifford", "full"][r.random_range(0..3)];
+    let (via_with, split) = (r.random_bool(0.7), r.random_bool(0.5));
+    // saving is only promised for the sequential, unsplit decomposer (see Trace_Decomp: SaveAnyMode)
+    let threads = if r.random_bool(0.3) { [1usize, 2, 4][r.random_range(0..3)] } else { 0 };
+    let standard_at = if r.random_bool(0.3) { r.random_range(0..ntargets) } else { usize::MAX };
+    let hash = r.random_bool(0.3);
+    tr.group();
+    let evs = crate::eng_simp::with_watchdog(120, {
+        let targets = targets.clone();
+        move || {
+            if hash {
+                reuse_history::<HGraph>(&targets, "hash", driver, simp, via_with, split, save, threads, standard_at)
+            } else {
+                reuse_history::<Graph>(&targets, "vec", driver, simp, via_with, split, save, threads, standard_at)
+            }
+        }
+    });
+    match evs {
+        None => {
+            tr.emit(json!({"k": "reset", "pre": targets[0]}));
+            tr.emit(json!({"k": "run", "be": "vec", "driver": driver, "simp": simp, "split": split, "par": threads > 0, "threads": threads, "via": "reuse", "res": "timeout"}));
+            1
+        }
+        Some(evs) => {
+            let n = evs.iter().filter(|e| e["k"] == "run" || e["k"] == "saved").count();
+            for e in evs {
+                tr.emit(e);
+            }
+            n
+        }
+    }
+}
+
+/// saved terms with the modes record_saved leaves out: parallel finishing, component splitting, two stages, hash backend
+pub fn record_saved_modes(a: &Value, tr: &mut Tr, r: &mut StdRng) -> usize {
+    let g: Graph = build(a);
+    let gh: HGraph = build(a);
+    tr.group();
+    tr.emit(json!({"k": "reset", "pre": a}));
+    let mut n = 0;
+    for drv in ["BssTOnly", "BssTOnly_random", "BssWithCats", "BssWithCats_random"] {
+        for (split, threads, be) in [(true, 0usize, "vec"), (false, [1usize, 2, 4][r.random_range(0..3)], "vec"), (true, 2, "vec"), (false, 0, "hash")] {
+            let simp = ["none", "clifford", "full"][r.random_range(0..3)];
+            let mut e = json!({"k": "saved", "be": be, "driver": drv, "simp": simp, "split": split, "par": threads > 0, "threads": threads});
+            let res = if be == "hash" {
+                guarded(|| {
+                    let mut d = Decomposer::new(&gh);
+                    d.with_simp(simp_of(simp)).with_split_graphs_components(split).with_save(true);
+                    finish(&mut d, drv, &vec![2, 2, 2], threads);
+                    (d.nterms, d.done.iter().map(abs).collect::<Vec<_>>())
+                })
+            } else {
+                guarded(|| {
+                    let mut d = Decomposer::new(&g);
+                    d.with_simp(simp_of(simp)).with_split_graphs_components(split).with_save(true);
+                    finish(&mut d, drv, &vec![2, 2, 2], threads);
+                    (d.nterms, d.done.iter().map(abs).collect::<Vec<_>>())
+                })
+            };
+            match res {
+                Err(m) => {
+                    e["res"] = json!("panic");
+                    e["msg"] = json!(m);
+                }
+                Ok((nterms, done)) => {
+                    e["res"] = json!("ok");
+                    e["nterms"] = json!(nterms);
+                    e["terms"] = json!(done);
+                }
+            }
+            tr.emit(e);
+            n += 1;
+        }
+        // two stages with saving (sequential, unsplit)
+        let depth = r.random_range(1..=2i64);
+        for e in two_stage(&g, "vec", drv, ["none", "clifford", "full"][r.random_range(0..3)], false, depth, 2, drv, true) {
+            if e["k"] == "saved" {
+                tr.emit(e);
+                n += 1;
+            }
+        }
+    }
+    n
+}
+
+/// one decomposition step on the hash backend (the guarded re-export is generic over the graph type)
+pub fn record_steps_hash(a: &Value, tr: &mut Tr) -> usize {
+    let g: HGraph = build(a);
+    if g.tcount() == 0 {
+        return 0;
+    }
+    tr.group();
+    tr.emit(json!({"k": "reset", "pre": a}));
+    let closed = g.inputs().is_empty() && g.outputs().is_empty();
+    let mut ds: Vec<(Decomp, &str)> = vec![
+        (BssTOnlyDriver { random_t: false }.choose_decomp(&g), "driver:BssTOnly"),
+        (BssWithCatsDriver { random_t: false }.choose_decomp(&g), "driver:BssWithCats"),
+        (BssWithCatsDriver { random_t: true }.choose_decomp(&g), "driver:BssWithCats_random"),
+    ];
+    if closed {
+        for (d, n) in [
+            (guarded(|| DynamicTDriver.choose_decomp(&g)), "driver:DynamicT"),
+            (guarded(|| SherlockDriver { tries: vec![3, 1, 2] }.choose_decomp(&g)), "driver:Sherlock"),
+            (guarded(|| SpiderCuttingDriver.choose_decomp(&g)), "driver:SpiderCutting"),
+        ] {
+            if let Ok(d) = d {
+                ds.push((d, n));
+            }
+        }
+    }
+    let mut n = 0;
+    for (d, via) in ds {
+        let mut e = match guarded(|| verif_apply_decomp(&g, &d)) {
+            Err(m) => json!({"k": "step", "decomp": decomp_json(&d), "via": via, "res": "panic", "msg": m}),
+            Ok(ts) => json!({"k": "step", "decomp": decomp_json(&d), "via": via, "res": "ok", "terms": ts.iter().map(abs).collect::<Vec<_>>()}),
+        };
+        e["be"] = json!("hash");
+        tr.emit(e);
+        n += 1;
+    }
+    n
+}
+
+/// entry point of the additions: `--two N --more N --reuse N --saved-modes N --steps-hash N`
+pub fn record_extra(args: &[String], r: &mut StdRng, tr: &mut Tr) -> Value {
+    let maxt: usize = arg_num(args, "--maxt", 6);
+    let (ntwo, nmore, nreuse, nsm, nsh): (usize, usize, usize, usize, usize) =
+        (arg_num(args, "--two", 0), arg_num(args, "--more", 0), arg_num(args, "--reuse", 0), arg_num(args, "--saved-modes", 0), arg_num(args, "--steps-hash", 0));
+    let mut two = 0;
+    for i in 0..ntwo {
+        // two thirds of the hosts fall into components (at once, or after the bridge spider has gone)
+        let nc = r.random_range(0..=2);
+        let a = match i % 3 {
+            0 => host_split(r, false),
+            1 => host_split(r, true),
+            _ => host(r, 1 + i % maxt.min(5), nc, 0, 0.45, i % 2 == 0),
+        };
+        two += record_two_stage(&a, tr, r, true);
+    }
+    let mut more = 0;
+    for i in 0..nmore {
+        let nc = r.random_range(0..=3);
+        let a = if i % 3 == 0 { host_split(r, i % 2 == 0) } else { host(r, 1 + i % maxt.min(6), nc, 0, 0.45, i % 2 == 0) };
+        more += record_more_runs(&a, tr, r);
+    }
+    let mut reuse = 0;
+    for _ in 0..nreuse {
+        reuse += record_reuse(r, tr, maxt);
+    }
+    let mut sm = 0;
+    for i in 0..nsm {
+        let (nt, nc, nb) = (1 + i % maxt.min(5), r.random_range(0..=2), r.random_range(1..=2));
+        let a = host(r, nt, nc, nb, 0.4, i % 2 == 0);
+        sm += record_saved_modes(&a, tr, r);
+    }
+    let mut sh = 0;
+    for i in 0..nsh {
+        let nt = 1 + i % maxt;
+        let nb = if i % 3 == 0 { r.random_range(1..=2) } else { 0 };
+        let nc = r.random_range(0..=2);
+        let a = host(r, nt, nc, nb, 0.4, i % 2 == 0);
+        sh += record_steps_hash(&a, tr);
+    }
+    json!({"two_stage_runs": two, "more_runs": more, "reuse_events": reuse, "saved_mode_runs": sm, "hash_steps": sh})
 }
